@@ -15,7 +15,6 @@ from ..exceptions import (
     FailedPattern,
     FailedToken,
     OptionSucceeded,
-    ParseException,
 )
 from ..util import boundcall, deprecated, left_assoc, regexpp, right_assoc
 from .cst import closedlist, cstfinal
@@ -247,7 +246,9 @@ class ParseContext(ParserEngine):
         try:
             with self.if_():
                 yield
-        except ParseException:
+        except FailedParse:
+            # NOTE: only a parse failure makes a negative lookahead succeed; the
+            #   other ParseException types (raised by semantic actions) propagate
             pass
         else:
             raise self.newexcept('', excls=FailedLookahead)
